@@ -352,6 +352,109 @@ func runC12(r *Run) {
 		bindMapByValueRule(r, "", 2)
 	})
 
+	r.rule("R9", "the binder's answer for the old-input map stays `do not split`: R8 has WithInput hand the map over by value, and equalFieldType answers `splittable` for a map only after looking at the element of the destination's type (reflect.TypeOf(out).Elem()), which for a map handed by value is the type of its values, never a map — the type whose Kind is compared with reflect.Map is the result of Elem() on every path (an `if pointer then Elem()` form makes the by-value map a map again: under EnableSplittingOnParsers `Doe, John` is delivered as ` John`) (E8, the two halves of one agreement)", func() {
+		f := r.Fn("binder", "equalFieldType")
+		n := 0
+		for _, b := range f.Blocks {
+			for _, in := range b.Instrs {
+				bo, ok := in.(*ssa.BinOp)
+				if !ok || (bo.Op != token.EQL && bo.Op != token.NEQ) {
+					continue
+				}
+				var kindCall *ssa.Call
+				for _, side := range [][2]ssa.Value{{bo.X, bo.Y}, {bo.Y, bo.X}} {
+					if k, ok := constInt(asConst(side[1])); ok && k == 21 && strings.HasSuffix(side[1].Type().String(), "reflect.Kind") {
+						if c, ok := stripValue(side[0]).(*ssa.Call); ok && strings.HasSuffix(calleeName(&c.Call), ".Kind") {
+							kindCall = c
+						}
+					}
+				}
+				if kindCall == nil {
+					continue
+				}
+				n++
+				var recv ssa.Value
+				if kindCall.Call.IsInvoke() {
+					recv = kindCall.Call.Value
+				} else if len(kindCall.Call.Args) > 0 {
+					recv = kindCall.Call.Args[0]
+				}
+				okElem := false
+				if recv != nil {
+					okElem = allSourcesAre(recv, func(v ssa.Value) bool {
+						c, ok := v.(*ssa.Call)
+						return ok && strings.HasSuffix(calleeName(&c.Call), ".Elem")
+					})
+				}
+				r.check(okElem, "equalFieldType:map-test-on-the-element-type", r.pos(in), "the Kind compared with reflect.Map is that of TypeOf(out).Elem() on every path",
+					"equalFieldType can judge the destination's own type to be a map (not only what a pointer points to): the old-input map WithInput hands over by value is then `splittable` — with EnableSplittingOnParsers a submitted `go,web,fiber` is delivered as `fiber`, `Doe, John` as ` John`")
+			}
+		}
+		r.atLeast("comparisons of a Kind with reflect.Map in equalFieldType", n, 1)
+	})
+
+	r.rule("R10", "a message and an old input may share a key (With(\"email\", …).WithInput() is the usual form): the by-key accessors Message and OldInput — or a helper they search through — decide on the kind of an entry while searching; an entry of the other kind under that key does not end the search (E1: between the key comparison and the found-return lies the isOldInput test)", func() {
+		n := 0
+		for _, fn := range []string{"(*Redirect).Message", "(*Redirect).OldInput"} {
+			f := r.Fn("", fn)
+			fs := append([]*ssa.Function{f}, helpersOf(f)...)
+			found := false
+			for _, g := range fs {
+				for _, br := range branchesInOne(g) {
+					isKey := false
+					for _, v := range []ssa.Value{br.Info.Root, br.Info.Other} {
+						if v == nil {
+							continue
+						}
+						if fv := fieldOfValue(stripValue(v)); fv != nil && fv.Name() == "key" {
+							isKey = true
+						}
+					}
+					sl, ok := br.slotFor(token.EQL)
+					if !isKey || !ok {
+						continue
+					}
+					found = true
+					n++
+					kindTest := func(in ssa.Instruction) bool {
+						i, ok := in.(*ssa.If)
+						if !ok {
+							return false
+						}
+						return dependsOn(i.Cond, func(v ssa.Value) bool {
+							if fa, ok := v.(*ssa.FieldAddr); ok {
+								if fv := fieldOfValue(fa); fv != nil && fv.Name() == "isOldInput" {
+									return true
+								}
+							}
+							if fl, ok := v.(*ssa.Field); ok {
+								if fv := fieldVar(fl.X.Type(), fl.Field); fv != nil && fv.Name() == "isOldInput" {
+									return true
+								}
+							}
+							return false
+						}) != nil
+					}
+					path, hit := reachEdge(edge{br.If.Block(), sl}, isReturn, nil, kindTest)
+					if hit != nil {
+						// the kind may have been tested first: a kind test that dominates the key comparison, inside the same search
+						for _, kb := range g.Blocks {
+							if len(kb.Instrs) > 0 && kindTest(kb.Instrs[len(kb.Instrs)-1]) && kb != br.If.Block() && dom(kb, br.If.Block()) {
+								hit = nil
+							}
+						}
+					}
+					r.check(hit == nil, fn+":"+short(g.String())+":kind-tested-while-searching", r.pos(br.If), "an entry with the key ends the search only after its kind was tested",
+						"the search by key ends at the first entry stored under the key, whatever its kind ("+pathString(r.P, path)+"): with With(\"email\", …).WithInput() the by-key accessor of the other kind comes back empty although the entry is in the cookie — OldInput(\"email\") is lost")
+				}
+			}
+			if !found {
+				r.bad(fn+":kind-tested-while-searching", r.fpos(f), "no comparison of an entry's key found in the accessor or its helpers: not the shape the rule reads")
+			}
+		}
+		r.atLeast("key comparisons in the by-key accessors", n, 2)
+	})
+
 	r.rule("R7", "flash messages and old input never overwrite each other (E1)", func() {
 		f := r.Fn("", "(*Redirect).With")
 		// the in-place override stores into an element of r.messages: reachable only past `!isOldInput`
